@@ -6,9 +6,13 @@
 package main
 
 import (
+	"context"
+	"encoding/json"
 	"errors"
 	"flag"
 	"fmt"
+	"net/http"
+	"net/http/httptest"
 	"os"
 	"sort"
 	"strconv"
@@ -81,6 +85,8 @@ var alphabet = []leaf{
 	{kind: "S", name: "not_found", field: sp("id"), msg: "m2", flags: 0},
 	{kind: "S", name: "timeout", msg: "m3", flags: 3, cause: true},
 	{kind: "W", name: "bad", msg: "m4", flags: 4},
+	{kind: "W", name: "bad", msg: "m5", flags: 1},   // (3+2+1)%4 = 2: two %w in one wrapper
+	{kind: "W", name: "slow", msg: "m6x", flags: 2}, // (4+3+2)%4 = 1: errors.Join(side, se)
 }
 
 var names = []string{"error", "error", "not_found", "bad_request", "x;y", "-", "é", "unsupported_media_type", ""}
@@ -211,6 +217,12 @@ func gen(seed uint64, tier string) {
 
 // ---------------------------------------------------------------- execution on the real code
 
+// upstream is a cause that has a status of its own (e.g. the error of an HTTP client)
+type upstream struct{ code int }
+
+func (u upstream) Error() string   { return fmt.Sprintf("upstream answered %d", u.code) }
+func (u upstream) StatusCode() int { return u.code }
+
 type wrapper struct {
 	msg   string
 	inner error
@@ -265,6 +277,16 @@ func evalTree(toks []string, causes map[int]error) (error, []string) {
 		return se, rest
 	case "W":
 		se, rest := parseSE(toks[1:], causes)
+		// the kind of wrapper is derived from the leaf (the model does not care: a wrapped service error is a service error)
+		fl, _ := strconv.Atoi(toks[4])
+		switch (len(se.Name) + len(se.Message) + fl) % 4 {
+		case 1:
+			return errors.Join(errors.New("side"), se), rest
+		case 2:
+			return fmt.Errorf("%w and %w", errors.New("other"), se), rest
+		case 3:
+			return fmt.Errorf("outer: %w", errors.Join(se, errors.New("side"))), rest
+		}
 		return fmt.Errorf("wrapped: %w", se), rest
 	case "N":
 		l, rest := evalTree(toks[1:], causes)
@@ -334,7 +356,28 @@ func run(toks []string) string {
 	case "status":
 		f, _ := strconv.Atoi(toks[2])
 		r := &goahttp.ErrorResponse{Name: lp.MustDec(toks[1]), Timeout: f&1 != 0, Temporary: f&2 != 0, Fault: f&4 != 0}
-		return strconv.Itoa(r.StatusCode())
+		want := r.StatusCode()
+		// the same error through goahttp.ErrorEncoder, bare and built around causes of every kind: the status comes
+		// from the service error's own flags, whatever it wraps
+		for vi, cause := range []error{nil, errors.New("plain cause"), upstream{502}, fmt.Errorf("ctx: %w", upstream{404})} {
+			se := &goa.ServiceError{Name: r.Name, ID: "id", Message: "m", Timeout: r.Timeout, Temporary: r.Temporary, Fault: r.Fault}
+			if cause != nil {
+				se = goa.NewServiceError(cause, r.Name, r.Timeout, r.Temporary, r.Fault)
+			}
+			for wi, e := range []error{se, fmt.Errorf("handler: %w", se)} {
+				rec := httptest.NewRecorder()
+				enc := goahttp.ErrorEncoder(func(ctx context.Context, w http.ResponseWriter) goahttp.Encoder { return json.NewEncoder(w) }, nil)
+				if err := enc(context.Background(), rec, e); err != nil {
+					return fmt.Sprintf("%d encoder-error:%d.%d:%v", want, vi, wi, err)
+				}
+				var body goahttp.ErrorResponse
+				_ = json.Unmarshal(rec.Body.Bytes(), &body)
+				if rec.Code != want || body.Name != r.Name || body.Timeout != r.Timeout || body.Temporary != r.Temporary || body.Fault != r.Fault {
+					return fmt.Sprintf("%d encoder-differs:cause%d.wrap%d:status=%d name=%s", want, vi, wi, rec.Code, lp.Enc(body.Name))
+				}
+			}
+		}
+		return strconv.Itoa(want)
 	case "grpccode":
 		f, _ := strconv.Atoi(toks[2])
 		se := &goa.ServiceError{Name: lp.MustDec(toks[1]), ID: "id", Message: "m", Timeout: f&1 != 0, Temporary: f&2 != 0, Fault: f&4 != 0}
